@@ -547,7 +547,7 @@ func (e *Enc) encIndexAddr(fr *Frame, st *State, in *ssa.IndexAddr) *Val {
 			break
 		}
 		e.safety(fr, st, "index", "(and (<= 0 "+idx+") (< "+idx+" "+x.L[2].T+"))", "slice index out of range", in.Pos())
-		return &Val{T: in.Type(), Loc: &Loc{Kind: 'S', Key: typeStr(xt.Elem()), Ref: x.L[0].T, Idx: addT(x.L[1].T, idx), T: xt.Elem()}}
+		return &Val{T: in.Type(), Loc: &Loc{Kind: 'S', Key: typeStr(xt.Elem()), Ref: x.L[0].T, Idx: e.elemIdx(x.L[1].T, idx), T: xt.Elem()}}
 	case *types.Pointer:
 		arr, ok := xt.Elem().Underlying().(*types.Array)
 		if !ok {
@@ -564,6 +564,26 @@ func (e *Enc) encIndexAddr(fr *Frame, st *State, in *ssa.IndexAddr) *Val {
 	}
 	e.unsupportedf("IndexAddr on %s in %s", typeStr(in.X.Type()), fr.fn)
 	return &Val{T: in.Type(), Loc: &Loc{Kind: 'P', Key: "?", Ref: e.fresh("unk", "Int"), T: in.Type().(*types.Pointer).Elem()}}
+}
+
+// elemIdx: the cell index off+i of element i of a slice with offset off. When both parts are symbolic the sum is written
+// with the function idx (idx(a,b) = a+b by an axiom triggered on idx itself), so that quantified facts about slice
+// elements get patterns without arithmetic operators — e-matching on (+ off i) is unreliable.
+func (e *Enc) elemIdx(off, i string) string {
+	if off == "0" {
+		return i
+	}
+	if i == "0" {
+		return off
+	}
+	if _, ok := isConstTerm(i); ok {
+		return "(+ " + off + " " + i + ")"
+	}
+	if _, ok := e.declared["idx"]; !ok {
+		e.declFun("idx", []string{"Int", "Int"}, "Int")
+		e.assert("(forall ((a Int) (b Int)) (! (= (idx a b) (+ a b)) :pattern ((idx a b))))")
+	}
+	return "(idx " + off + " " + i + ")"
 }
 
 func addT(a, b string) string {
@@ -1113,7 +1133,7 @@ func (e *Enc) encRunDefers(fr *Frame, st *State, in *ssa.RunDefers) {
 
 // entryRefFact: a reference stored in a map of the ENTRY heap is a reference that existed at entry.
 func (e *Enc) entryRefFact(key, sort string, lf Leaf, m, k string) {
-	if lf.Sort != "Int" || lf.Path != "" || !isRefLike(lf.T) {
+	if lf.Sort != "Int" || !isRefLike(lf.T) {
 		return
 	}
 	a0 := e.declConst(sym(key+"@0"), sort)
